@@ -163,11 +163,117 @@ func callArgs(c *ssa.CallCommon) []ssa.Value {
 }
 
 func eachInstr(fn *ssa.Function, f func(ssa.Instruction)) {
+	live := liveBlocks(fn)
 	for _, b := range fn.Blocks {
+		if live != nil && !live[b] {
+			continue // behind a branch on a constant (an expanded helper called with a literal mode flag)
+		}
 		for _, i := range b.Instrs {
 			f(i)
 		}
 	}
+}
+
+// ---- branches on constants
+//
+// After a helper has been expanded in place, a parameter that was passed a literal (`appendValues(buf, xs, true)`) is a
+// constant in the caller, and `if !filter || …` branches on it. Such a branch has one feasible side; everything only
+// reachable through the other side is dead and is skipped by every walk over a function (eachInstr, path rules, path
+// conditions, phi rendering).
+
+// constCond: v is a boolean constant after folding `!`, `==`/`!=` of constants, and phis whose edges agree.
+func constCond(v ssa.Value, depth int) (val bool, ok bool) {
+	if depth > 4 {
+		return false, false
+	}
+	switch x := v.(type) {
+	case *ssa.Const:
+		if x.Value != nil && x.Value.Kind() == constant.Bool {
+			return constant.BoolVal(x.Value), true
+		}
+	case *ssa.UnOp:
+		if x.Op == token.NOT {
+			if b, ok := constCond(x.X, depth+1); ok {
+				return !b, true
+			}
+		}
+	case *ssa.BinOp:
+		if x.Op == token.EQL || x.Op == token.NEQ {
+			a, okA := x.X.(*ssa.Const)
+			b, okB := x.Y.(*ssa.Const)
+			if okA && okB && a.Value != nil && b.Value != nil && a.Value.Kind() == b.Value.Kind() {
+				eq := constant.Compare(a.Value, token.EQL, b.Value)
+				return eq == (x.Op == token.EQL), true
+			}
+		}
+	}
+	return false, false
+}
+
+// liveSuccs: the successors of b that its terminating branch can take.
+func liveSuccs(b *ssa.BasicBlock) []*ssa.BasicBlock {
+	if len(b.Succs) == 2 && len(b.Instrs) > 0 {
+		if iff, ok := b.Instrs[len(b.Instrs)-1].(*ssa.If); ok {
+			if v, isC := constCond(iff.Cond, 0); isC {
+				if v {
+					return b.Succs[:1]
+				}
+				return b.Succs[1:2]
+			}
+		}
+	}
+	return b.Succs
+}
+
+func edgeLive(p, b *ssa.BasicBlock) bool {
+	if live := liveBlocks(p.Parent()); live != nil && !live[p] {
+		return false
+	}
+	for _, s := range liveSuccs(p) {
+		if s == b {
+			return true
+		}
+	}
+	return false
+}
+
+var liveCache = map[*ssa.Function]map[*ssa.BasicBlock]bool{}
+
+// liveBlocks: blocks reachable from the entry along feasible branch sides; nil when every block is (the usual case).
+func liveBlocks(fn *ssa.Function) map[*ssa.BasicBlock]bool {
+	if fn == nil || len(fn.Blocks) == 0 {
+		return nil
+	}
+	if m, ok := liveCache[fn]; ok {
+		return m
+	}
+	anyConst := false
+	for _, b := range fn.Blocks {
+		if len(liveSuccs(b)) != len(b.Succs) {
+			anyConst = true
+			break
+		}
+	}
+	if !anyConst {
+		liveCache[fn] = nil
+		return nil
+	}
+	live := map[*ssa.BasicBlock]bool{}
+	st := []*ssa.BasicBlock{fn.Blocks[0]}
+	if fn.Recover != nil {
+		st = append(st, fn.Recover)
+	}
+	for len(st) > 0 {
+		b := st[len(st)-1]
+		st = st[:len(st)-1]
+		if live[b] {
+			continue
+		}
+		live[b] = true
+		st = append(st, liveSuccs(b)...)
+	}
+	liveCache[fn] = live
+	return live
 }
 
 // callsIn lists instructions in fn (not nested closures) calling any of names.
@@ -580,9 +686,26 @@ func (e *exprCtx) expr(v ssa.Value) string {
 				}
 			}
 		}
+		// edges that cannot be taken (behind a branch on a constant) contribute no value
+		edges := x.Edges
+		if liveBlocks(x.Parent()) != nil {
+			edges = nil
+			for k, ed := range x.Edges {
+				if k < len(x.Block().Preds) && !edgeLive(x.Block().Preds[k], x.Block()) {
+					continue
+				}
+				edges = append(edges, ed)
+			}
+			if len(edges) == 1 {
+				return e.expr(edges[0])
+			}
+			if len(edges) == 0 {
+				edges = x.Edges
+			}
+		}
 		e.seen[x] = true
 		var parts []string
-		for _, ed := range x.Edges {
+		for _, ed := range edges {
 			parts = append(parts, e.expr(ed))
 		}
 		delete(e.seen, x)
@@ -1011,6 +1134,9 @@ func identityReturn(g *ssa.Function) (int, bool) {
 // constants, the shape left by `ok := false; if c { ok = true }; if ok {…}` and by an expanded helper that returns
 // true/false or an error) continues only on the side the flag selects.
 func feasibleSuccs(b, from *ssa.BasicBlock) []*ssa.BasicBlock {
+	if ls := liveSuccs(b); len(ls) != len(b.Succs) {
+		return ls
+	}
 	if from == nil {
 		return b.Succs
 	}
@@ -2324,6 +2450,9 @@ func (c *Ctx) valueCases(v ssa.Value, blk *ssa.BasicBlock) []valueCase {
 			}
 			for k, e := range phi.Edges {
 				if k < len(d.Preds) {
+					if !edgeLive(d.Preds[k], d) {
+						continue
+					}
 					if side >= 0 && oc[k] >= 0 && oc[k] != side {
 						continue
 					}
